@@ -110,8 +110,8 @@ func reusePhase(c *core.Ctx) {
 		}
 	})
 	c.Eval(pairs)
-	c.States(int64(len(w1s) + len(v1s)))   // distinct parser states reached by a first parse
-	c.Transitions(pairs)        // second parses started from those states
+	c.States(int64(len(w1s) + len(v1s))) // distinct parser states reached by a first parse
+	c.Transitions(pairs)                 // second parses started from those states
 	c.Set("parser_reuse_histories", pairs)
 }
 
